@@ -13,7 +13,7 @@ import itertools
 import numpy as np
 from bounded.api import quiet, close
 
-BUDGET = {"quick": 60.0, "thorough": 840.0}
+BUDGET = {"quick": 70.0, "thorough": 840.0}
 
 OPS = "SRLBDUEVNXC"
 OPS_TEXT = ("S single new point (tuple); R single repeated point; L single new point passed as list/ndarray; B batch of 2-4 new tuples; "
@@ -253,9 +253,15 @@ def run_seq(ctx, cfg, ops, seed):
     kept = []            # (path, returned object, copy taken at report time)
 
     def oracle(p):
-        with quiet():
-            v = ref.eval(tuple(p))
-        return np.atleast_1d(np.asarray(v, dtype=float)).reshape(-1)
+        # eval of the oracle instance; an exception here is an exception of the real eval (e.g. an inner function of a wrapper
+        # that was contaminated through shared state) and is reported, never a crash of the harness
+        try:
+            with quiet():
+                v = ref.eval(tuple(p))
+            return np.atleast_1d(np.asarray(v, dtype=float)).reshape(-1)
+        except Exception as ex:          # noqa
+            ctx.check("B.eval.shape", False, "sparseSpACE.Function:%s.eval" % cname, "eval-raises", "%s.eval(%s) raised %s: %s" % (cname, p, type(ex).__name__, ex))
+            return np.full(declared, np.nan)
 
     probe = oracle(_sample_point(rng, cfg))
     mismatch = len(probe) != declared
